@@ -2,6 +2,7 @@ package ast
 
 import (
 	"bytes"
+	"sort"
 	"strings"
 
 	"github.com/skx/evalfilter/v2/token"
@@ -34,6 +35,13 @@ func (hl *HashLiteral) String() string {
 			pairs = append(pairs, key.String()+":"+value.String())
 		}
 	}
+
+	// The pairs live in a map, so we sort them - otherwise the text
+	// would change from one call to the next, and it is used for more
+	// than display: it ends up in the constant-pool and in error
+	// messages when a hash literal is called, or follows a ".".
+	sort.Strings(pairs)
+
 	out.WriteString("{")
 	out.WriteString(strings.Join(pairs, ", "))
 	out.WriteString("}")
